@@ -25,6 +25,8 @@ CHECKS = {
             "parts": [part("TestC14", 8, 150, 16, 6000)]},
     "C03": {"level": "fault_enumeration",
             "parts": [part("TestC03", 8, 150, 16, 1500)]},
+    "C09": {"level": "exploration",
+            "parts": [part("TestC09", 8, 150, 16, 2000)]},
     "C04": {"level": "exploration", "scheduled": True,
             "parts": [part("TestC04", 8, 100, 16, 1500)]},
 }
